@@ -192,30 +192,30 @@ pub fn profile(name: &str) -> Profile {
             p.threads = (2, 4);
             let caser = Role {
                 name: "caser",
-                weights: w(&[(K::Load, 10), (K::Cas, 18), (K::CasWeak, 3), (K::CasTag, 5), (K::RcSnapshot, 3), (K::Counted, 3), (K::Pin, 2), (K::Unpin, 2), (K::New, 3), (K::WithTag, 2)]),
+                weights: w(&[(K::Load, 10), (K::Cas, 18), (K::CasWeak, 3), (K::CasTag, 5), (K::RcSnapshot, 3), (K::Counted, 3), (K::Pin, 2), (K::Unpin, 2), (K::New, 4), (K::WithTag, 2), (K::Store, 7), (K::Swap, 3), (K::DropRc, 3)]),
                 ops: (5, 14),
             };
             let restamper = Role {
                 name: "restamper",
-                weights: w(&[(K::Restamp, 18), (K::Churn, 10), (K::Store, 2), (K::Swap, 2), (K::Load, 2), (K::Unpin, 3), (K::CasTag, 2)]),
+                weights: w(&[(K::Restamp, 18), (K::Churn, 10), (K::Store, 6), (K::Swap, 3), (K::Load, 2), (K::Unpin, 3), (K::CasTag, 2), (K::New, 2), (K::DropRc, 2)]),
                 ops: (5, 14),
             };
             let wcaser = Role {
                 name: "weak-caser",
-                weights: w(&[(K::WLoad, 10), (K::WCas, 18), (K::WCasTag, 5), (K::WeakSnap, 3), (K::WsCounted, 3), (K::Downgrade, 4), (K::SnapDowngrade, 3), (K::Load, 3), (K::Pin, 2), (K::Unpin, 2), (K::WithTag, 2)]),
+                weights: w(&[(K::WLoad, 10), (K::WCas, 18), (K::WCasTag, 5), (K::WeakSnap, 3), (K::WsCounted, 3), (K::Downgrade, 4), (K::SnapDowngrade, 3), (K::Load, 3), (K::Pin, 2), (K::Unpin, 2), (K::WithTag, 2), (K::WStore, 7), (K::WSwap, 3), (K::WeakDrop, 3)]),
                 ops: (5, 14),
             };
             let wrestamper = Role {
                 name: "weak-restamper",
-                weights: w(&[(K::WRestamp, 18), (K::Churn, 10), (K::WStore, 2), (K::WSwap, 2), (K::WLoad, 2), (K::Unpin, 3), (K::WCasTag, 2), (K::Restamp, 4)]),
+                weights: w(&[(K::WRestamp, 18), (K::Churn, 10), (K::WStore, 6), (K::WSwap, 3), (K::WLoad, 2), (K::Unpin, 3), (K::WCasTag, 2), (K::Restamp, 4), (K::Downgrade, 2), (K::WeakDrop, 2)]),
                 ops: (5, 14),
             };
             if weak {
                 p.roles = vec![wcaser, wrestamper];
-                p.stall_sites = vec![S::AW_CAS, S::AW_CAS, S::AW_CAS, S::AW_CAS_TAG, S::AW_LOAD];
+                p.stall_sites = vec![S::AW_CAS, S::AW_CAS, S::AW_CAS, S::AW_CAS_TAG, S::AW_LOAD, S::AW_STORE_SWAP, S::AW_STORE_DEC];
             } else {
                 p.roles = vec![caser, restamper];
-                p.stall_sites = vec![S::ARC_CAS_RETRY, S::ARC_CAS_RETRY, S::ARC_CAS_RETRY, S::ARC_CAS, S::ARC_CAS, S::ARC_CAS_TAG, S::ARC_TIMESTAMP];
+                p.stall_sites = vec![S::ARC_CAS_RETRY, S::ARC_CAS_RETRY, S::ARC_CAS_RETRY, S::ARC_CAS, S::ARC_CAS, S::ARC_CAS_TAG, S::ARC_TIMESTAMP, S::ARC_STORE_SWAP, S::ARC_STORE_DEC];
             }
         }
         "c02f" | "c01f" | "c05f" | "c03f" => {
